@@ -295,7 +295,9 @@ def read_only(chk: Check) -> None:
                     chk.ob('OWN-frozen', f, False, 'a method other than the constructor changes the wrapped dictionary: the inputs are not read-only', node=bad, kind='mutator')
     chk.ob('OWN-frozen', fd.qualname, True, 'no method outside __init__ stores into or mutates the wrapped dictionary', kind='no-mutator')
     init = prog.view(fd.vmethods['__init__'])
-    ok = any(isinstance(n, ast.Assign) and norm(n.targets[0]) == 'self._dict' and isinstance(n.value, ast.Call) and norm(n.value.func) == 'dict' for n in ast.walk(init.node))
+    st_ = [n for n in ast.walk(init.node) if isinstance(n, (ast.Assign, ast.AnnAssign)) and n.value is not None and norm(n.targets[0] if isinstance(n, ast.Assign) else n.target) == 'self._dict']
+    # EVERY store (there is no fast path that keeps the caller's dictionary: raw_inputs is a snapshot of what was given, not a view on it)
+    ok = bool(st_) and all((isinstance(n.value, ast.Call) and norm(n.value.func) in ('dict', 'copy.copy', 'copy.deepcopy')) or isinstance(n.value, (ast.Dict, ast.DictComp)) for n in st_)
     chk.ob('OWN-frozen', init, ok, 'the constructor copies its argument into a new dict (later changes of the source do not show)', kind='constructor-copies')
     pp = prog.func('ports.PortNamespace.pre_process')
     rets = [r for r in ast.walk(pp.node) if isinstance(r, ast.Return)]
